@@ -144,7 +144,7 @@ def step (fixRoot : Bool) (t : Tree) (i : PI) (s : MSt) : R MSt :=
                 else pure { s with paths := { p with root := true } :: r }
   | .pathDotDot => pushElem { name := "..".toList } s
   | .namePush _ loc =>
-    if s.predCount > 0 && s.predEvalPath % 2 = 0 then
+    if s.predCount > 0 && s.predEvalPath = 0 then   -- (after the repair) only the first path of a predicate is the key name
       pure { s with stack := .lit (runesToStr loc) :: s.stack }
     else pushElem { name := runesToStr loc } s
   | .predicatesStart => pure { s with preds := [] :: s.preds }
@@ -182,7 +182,7 @@ def step (fixRoot : Bool) (t : Tree) (i : PI) (s : MSt) : R MSt :=
   | .evalLocPath =>
     if s.predCount > 0 then
       let s := { s with predEvalPath := s.predEvalPath + 1 }
-      if s.predEvalPath % 2 = 1 then pure s else evalInternal t s
+      if s.predEvalPath = 1 then pure s else evalInternal t s
     else if !s.prevReqELP then pure s
     else evalInternal t s
   | .eq => do
